@@ -401,3 +401,5 @@ PROPS["C18"]["modules"] = ["Essential.Props.C18", "Essential.Props.C18b"]
 PROPS["C18"]["rule"] += "; postcard: `pc` (encoder) and `pcdec` (decoder, value and number of bytes left) of solutions, mutations and sets on model and code: valid encodings, truncations, trailing bytes, flipped bits, non-canonical and over-long varints, random bytes; o_serde (implementation only): JSON / postcard / Display+FromStr round trips and legacy field names for every public data type"
 
 PROPS["C04"]["modules"] = ["Essential.Props.C04", "Essential.Props.C04b"]
+
+PROPS["C18"]["rule"] += "; `conv`: every helper of essential_types::convert (word <-> bytes, 32/64-byte arrays <-> 4/8 words, hex strings incl. upper case, odd lengths and invalid digits, bool) on model and code"
